@@ -162,6 +162,7 @@ class Builder:
         self.dtype = dtype
         self.max_size = max_size
         self.allow_empty = False
+        self.npint_args = False
 
     # -- helpers
     def name(self, p="v"):
@@ -342,9 +343,9 @@ def g_unary(b, fn=None):
     return b.call(fn, [R(x)], sp=sp)
 
 
-def g_param_act(b):
+def g_param_act(b, fn=None):
     rng = b.rng
-    fn = rng.choice(["elu", "leaky_relu", "hard_tanh", "glu", "softmax", "logsoftmax"])
+    fn = fn or rng.choice(["elu", "leaky_relu", "hard_tanh", "glu", "softmax", "logsoftmax"])
     spec = OT.SPECS[fn]
     x = pick(b)
     if x is None:
@@ -437,9 +438,9 @@ def g_matmul(b):
     return b.call("matmul", [R(x), R(y)], sp=sp)
 
 
-def g_seq(b):
+def g_seq(b, fn=None):
     rng = b.rng
-    fn = rng.choice(["add_sequence", "multiply_sequence"])
+    fn = fn or rng.choice(["add_sequence", "multiply_sequence"])
     x = pick(b)
     if x is None:
         return None
@@ -480,8 +481,12 @@ def rand_axis(rng, nd, allow_tuple=True, allow_empty=True):
     return tuple(a if rng.random() < 0.5 else a - nd for a in axes)
 
 
-def enc_axis(ax):
-    return ["t", list(ax)] if isinstance(ax, tuple) else ax
+def enc_axis(ax, b=None):
+    if isinstance(ax, tuple):
+        return ["t", list(ax)]
+    if b is not None and getattr(b, "npint_args", False) and isinstance(ax, int) and b.rng.random() < 0.25:
+        return ["s", "int64", ax]
+    return ax
 
 
 def g_reduce(b, fn=None):
@@ -497,7 +502,7 @@ def g_reduce(b, fn=None):
     ax = rand_axis(rng, xv.ndim)
     kw = {}
     if ax is not None or rng.random() < 0.2:
-        kw["axis"] = enc_axis(ax)
+        kw["axis"] = enc_axis(ax, b)
     if rng.random() < 0.4:
         kw["keepdims"] = rng.random() < 0.7
     if fn in ("var", "std") and rng.random() < 0.5:
@@ -516,9 +521,9 @@ def g_reduce(b, fn=None):
     return b.call(fn, [R(x)], kw=kw, sp=sp)
 
 
-def g_cum(b):
+def g_cum(b, fn=None):
     rng = b.rng
-    fn = rng.choice(["cumsum", "cumprod"])
+    fn = fn or rng.choice(["cumsum", "cumprod"])
     x = pick(b)
     if x is None:
         return None
@@ -666,7 +671,7 @@ def factorizations(n, rng, maxnd=3):
     return dims
 
 
-def g_shape(b, x=None, only_view=False):
+def g_shape(b, x=None, only_view=False, fn=None):
     """reshape / squeeze / ravel / flatten / expand_dims / broadcast_to / atleast / transpose-like."""
     rng = b.rng
     x = x or pick(b)
@@ -677,7 +682,7 @@ def g_shape(b, x=None, only_view=False):
     kinds = ["reshape", "squeeze", "ravel", "expand_dims", "broadcast_to", "atleast", "transpose", "T", "moveaxis", "swapaxes"]
     if not only_view:
         kinds += ["flatten", "roll"]
-    fn = rng.choice(kinds)
+    fn = fn or rng.choice(kinds)
     first_t = b.meta[x]["tensor"]
     if fn == "reshape":
         dims = factorizations(xv.size, rng) if xv.size else [0]
@@ -707,8 +712,8 @@ def g_shape(b, x=None, only_view=False):
         if int(np.prod(shp, dtype=int)) > b.max_size:
             return None
         return b.call("broadcast_to", [R(x), ["t", shp]], sp=rng.choice(["mg", "np"]))
-    if fn == "atleast":
-        return b.call(rng.choice(["atleast_1d", "atleast_2d", "atleast_3d"]), [R(x)], sp=rng.choice(["mg", "np"]))
+    if fn.startswith("atleast"):
+        return b.call(fn if fn != "atleast" else rng.choice(["atleast_1d", "atleast_2d", "atleast_3d"]), [R(x)], sp=rng.choice(["mg", "np"]))
     if fn == "transpose":
         c = rng.random()
         if c < 0.3 or nd < 2:
@@ -750,9 +755,9 @@ def g_shape(b, x=None, only_view=False):
     return None
 
 
-def g_join(b):
+def g_join(b, fn=None):
     rng = b.rng
-    fn = rng.choice(["concatenate", "stack"])
+    fn = fn or rng.choice(["concatenate", "stack"])
     x = pick(b, lambda n: np.ndim(b.val(n)) >= (1 if fn == "concatenate" else 0))
     if x is None:
         return None
@@ -803,6 +808,8 @@ def g_repeat(b):
         n = xv.shape[ax]
         if rng.random() < 0.5:
             rep = rng.randint(1, 3)
+            if getattr(b, "npint_args", False) and rng.random() < 0.3:
+                rep = ["s", "int64", rep]
         else:
             rep = [rng.randint(0, 2) for _ in range(n)]
             if sum(rep) == 0:
